@@ -117,6 +117,7 @@ def h_quic_entry(c, _):
 
 
 QDI = "tlexport.quic.quic_dissector"
+QP_T = "tlexport.quic.quic_packet.QuicPacketType"
 
 
 @harness(["C03", "C02"], "robust.quic_dissector", functions=[QDI + ".extract_quic_packet", QDI + ".get_header_type", QDI + ".get_packet_type"],
@@ -141,8 +142,17 @@ def h_dissector(c, isserver, suite, fb):
     hpv = hp["client_initial_hp"]
     keys = {k: hpv for k in ("client_initial_hp", "server_initial_hp", "client_handshake_hp", "server_handshake_hp", "client_early_hp",
                              "client_application_hp", "server_application_hp")}
-    if c.nondet("keys_missing"):
+    needed = {"long_initial": "%s_initial_hp", "long_handshake": "%s_handshake_hp", "long_0rtt": "client_early_hp", "short": "%s_application_hp"}.get(fb)
+    if needed and "%s" in needed:
+        needed = needed % ("server" if isserver else "client")
+    have = c.choice("hp_keys", ["all", "none", "needed_one_missing", "needed_one_is_None"])
+    if have == "none":
         keys = {}
+    elif have == "needed_one_missing" and needed:
+        del keys[needed]
+    elif have == "needed_one_is_None" and needed:
+        keys[needed] = None
+    usable = needed is None or keys.get(needed) is not None
     pkt = c.obj("tlexport.packet.Packet", tls_data=data, timestamp=1.0)
     out = c.call(QDI + ".extract_quic_packet", in_packet=pkt, isserver=isserver, guessed_dcid=dcid, keys=keys, ciphersuite=(const(suite) if suite else None))
     c.ensure("no_raise", out.exc is None, kind="raises")
@@ -152,6 +162,10 @@ def h_dissector(c, isserver, suite, fb):
     c.ensure("returns_the_same_packet_object", same is pkt)
     rest = c.get(pkt, "tls_data")
     c.ensure("remainder_shorter", c.prove(len_(rest) < len_(data)))
+    # the link to the session's key-state invariant (quic.keystate): a protected packet is produced only if header protection
+    # could be removed, i.e. with a usable hp key of its level and direction
+    protected = [p for p in pkts if not any(c.get(p, "packet_type") is c.enum(QP_T, t) for t in ("RETRY", "VERSION_NEG"))]
+    c.ensure("packets_only_with_a_usable_hp_key", usable or not protected)
     c.cover("returned")
 
 
